@@ -224,9 +224,12 @@ type c10Case struct {
 	// oracle-only family: expected return data by the EVM specification; the model comparison is skipped
 	specRet   []byte
 	specName  string // oracle class reported when specRet is not met (default: kvm-identity-returndata-aliased)
+	specClass string // the error class the run must end with (direct oracle, reported under specName)
 	specWhat  string
 	skipModel string
 	extra     []c10Acct // further pre-state accounts of a boundary family
+	accts0bal *big.Int  // balance of the called contract, when the family fixes it
+	ecHighS   bool      // input of the ECRECOVER precompile with s in the upper half of the group order
 	// exact-gas family: the program was first run with ample gas and used exactly `exactUsed`; the case proper
 	// is given exactUsed+exactDelta and must end the same way with exactDelta left (or out of gas when < 0)
 	exactOn    bool
@@ -1374,7 +1377,7 @@ func c10Boundary(r *c10Rand, c *c10Case, self, other common.Address) (code []byt
 	a := newAsm()
 	ret32 := func() { a.push(0).op(MSTORE).push(32).push(0).op(RETURN) }
 	word32 := func(v uint64) []byte { return common.BigToHash(new(big.Int).SetUint64(v)).Bytes() }
-	switch k := r.Intn(40); k {
+	switch k := r.Intn(41); k {
 	case 23, 24, 25, 27, 28: // systematic offset/length matrix for every offset-taking opcode
 		name = "offset-matrix"
 		two := func(n uint) *big.Int { return new(big.Int).Lsh(big.NewInt(1), n) }
@@ -1454,11 +1457,11 @@ func c10Boundary(r *c10Rand, c *c10Case, self, other common.Address) (code []byt
 			cl := cpLen()
 			a.pushBig(cl).pushBig(so).pushBig(pick(0, which)).pushAddr(other).op(op)
 		case CALLDATALOAD, MLOAD:
-			a.pushBig(bigOff()).op(op).op(POP)
+			a.pushBig(bigOff()).op(op).push(32).op(MSTORE) // the loaded word is part of the returned memory
 		case MSTORE, MSTORE8:
 			a.push(0xbeef).pushBig(bigOff()).op(op)
 		case SHA3:
-			a.pushBig(ln()).pushBig(bigOff()).op(op).op(POP)
+			a.pushBig(ln()).pushBig(bigOff()).op(op).push(32).op(MSTORE)
 		case LOG0:
 			a.pushBig(ln()).pushBig(bigOff()).op(op)
 		case LOG2:
@@ -1476,7 +1479,7 @@ func c10Boundary(r *c10Rand, c *c10Case, self, other common.Address) (code []byt
 				a.push(0)
 			}
 			a.pushAddr([]common.Address{other, common.BytesToAddress([]byte{4}), common.BytesToAddress([]byte{0xde, 0xad, 0x01})}[r.Intn(3)])
-			a.op(GAS).op(op).op(POP)
+			a.op(GAS).op(op).push(32).op(MSTORE)
 		}
 		a.op(MSIZE).push(64).op(MSTORE)
 		a.push(96).push(0).op(RETURN)
@@ -1497,10 +1500,14 @@ func c10Boundary(r *c10Rand, c *c10Case, self, other common.Address) (code []byt
 				a.push(uint64(r.Intn(4) / 3)) // value 1 now and then (stipend)
 			}
 			a.pushAddr(other)
-			if r.Chance(1, 6) {
+			switch r.Pick(1, 4, 1) {
+			case 0:
 				a.op(GAS)
-			} else {
+			case 1:
 				a.push(gases[r.Intn(len(gases))])
+			default: // a request of 2^64 or more means "all but one 64th", whatever its low 64 bits say
+				a.pushBig([]*big.Int{new(big.Int).Lsh(big.NewInt(1), 64), new(big.Int).Add(new(big.Int).Lsh(big.NewInt(1), 64), big.NewInt(int64(r.Intn(5000)))),
+					new(big.Int).Add(new(big.Int).Lsh(big.NewInt(1), 128), big.NewInt(700)), c10Max}[r.Intn(4)])
 			}
 			a.op(kind)
 			a.push(uint64(i)).op(SSTORE)
@@ -1571,7 +1578,16 @@ func c10Boundary(r *c10Rand, c *c10Case, self, other common.Address) (code []byt
 	case 3: // static call into a writer
 		name = "static-write"
 		w := newAsm()
-		switch r.Intn(9) {
+		switch r.Intn(12) {
+		case 9: // CALLCODE with value inside a static frame is not a state change: allowed (fails only for lack of balance)
+			w.push(0).push(0).push(0).push(0).push(uint64(1 + r.Intn(3))).pushAddr(self).op(GAS, CALLCODE)
+		case 10, 11: // an inner static call that returns must leave the outer static frame read-only
+			w.push(0).push(0).push(0).push(0).pushAddr([]common.Address{c.origin, self, common.BytesToAddress([]byte{0xc0, 0xde, 0x00, 0x02}), common.BytesToAddress([]byte{4})}[r.Intn(4)]).push(20000).op(STATICCALL, POP)
+			if r.Chance(1, 2) {
+				w.push(1).push(0).op(SSTORE)
+			} else {
+				w.push(0).push(0).op(LOG0)
+			}
 		case 0:
 			w.push(1).push(0).op(SSTORE)
 		case 1:
@@ -1650,20 +1666,34 @@ func c10Boundary(r *c10Rand, c *c10Case, self, other common.Address) (code []byt
 		a.push(64).push(0).op(RETURN)
 	case 9: // arithmetic edge: one op on two boundary words
 		name = "arith-edge"
-		op := c10Bin[r.Intn(len(c10Bin))]
-		a.pushBig(c10Word(r)).pushBig(c10Word(r)).op(op)
-		ret32()
+		for i := 0; i < 8; i++ {
+			op := c10Bin[r.Intn(len(c10Bin))]
+			a.pushBig(c10Word(r)).pushBig(c10Word(r)).op(op)
+			a.push(uint64(32 * i)).op(MSTORE)
+		}
+		a.push(256).push(0).op(RETURN)
 	case 10:
 		name = "arith-edge3"
-		a.pushBig(c10Word(r)).pushBig(c10Word(r)).pushBig(c10Word(r)).op(c10Ter[r.Intn(2)])
-		ret32()
-	case 11: // shifts / byte / signextend at the limits
+		for i := 0; i < 8; i++ {
+			a.pushBig(c10Word(r)).pushBig(c10Word(r)).pushBig(c10Word(r)).op(c10Ter[r.Intn(2)])
+			a.push(uint64(32 * i)).op(MSTORE)
+		}
+		a.push(256).push(0).op(RETURN)
+	case 11, 38: // shifts / byte / signextend at the limits
 		name = "shift-edge"
-		op := []OpCode{SHL, SHR, SAR, BYTE, SIGNEXTEND}[r.Intn(5)]
-		a.pushBig(c10Word(r))
-		a.pushBig([]*big.Int{big.NewInt(0), big.NewInt(1), big.NewInt(30), big.NewInt(31), big.NewInt(32), big.NewInt(255), big.NewInt(256), big.NewInt(257), new(big.Int).Lsh(big.NewInt(1), 64), c10Max}[r.Intn(10)])
-		a.op(op)
-		ret32()
+		half := new(big.Int).Lsh(big.NewInt(1), 255)
+		for i := 0; i < 16; i++ {
+			op := []OpCode{SHL, SHR, SAR, SAR, BYTE, SIGNEXTEND}[r.Intn(6)]
+			// value classes: zero, one, small, largest positive, smallest negative, minus one, bytes with/without the sign bit, anything
+			vals := []*big.Int{big.NewInt(0), big.NewInt(1), big.NewInt(int64(2 + r.Intn(300))), new(big.Int).Sub(half, big.NewInt(1)), half, c10Max,
+				big.NewInt(0x80), big.NewInt(0x7f), big.NewInt(0x8000), new(big.Int).Add(half, big.NewInt(1)), c10Word(r), c10Word(r)}
+			// shift / index classes: 0, 1, byte limits, 255, 256, just above, far above (64-bit and beyond)
+			shs := []*big.Int{big.NewInt(0), big.NewInt(1), big.NewInt(int64([]int{7, 8, 30, 31, 32, 33}[r.Intn(6)])), big.NewInt(int64(254 + r.Intn(2))), big.NewInt(256), big.NewInt(257),
+				[]*big.Int{new(big.Int).SetUint64(1<<32 + 1), new(big.Int).SetUint64(1 << 63), new(big.Int).Lsh(big.NewInt(1), 64), new(big.Int).Add(new(big.Int).Lsh(big.NewInt(1), 64), big.NewInt(1)), c10Max}[r.Intn(5)]}
+			a.pushBig(vals[r.Intn(len(vals))]).pushBig(shs[r.Intn(len(shs))]).op(op)
+			a.push(uint64(32 * i)).op(MSTORE)
+		}
+		a.push(512).push(0).op(RETURN)
 	case 12: // EXP with large exponent (gas) and result
 		name = "exp-edge"
 		a.pushBig(c10Word(r)).pushBig(c10Word(r)).op(EXP)
@@ -1743,8 +1773,16 @@ func c10Boundary(r *c10Rand, c *c10Case, self, other common.Address) (code []byt
 	case 17: // selfdestruct then more calls into the same contract
 		name = "selfdestruct"
 		w := newAsm()
-		w.pushAddr([]common.Address{self, other, common.BytesToAddress([]byte{0xde, 0xad, 0x02})}[r.Intn(3)]).op(SELFDESTRUCT)
+		// beneficiary: self, the caller, absent, an existing EMPTY account (pre-state, or touched earlier in this run), a precompile
+		ee := common.BytesToAddress([]byte{0xc0, 0xde, 0x00, 0x0e})
+		c.extra = append(c.extra, c10Acct{addr: ee, bal: big.NewInt(0)})
+		dead := common.BytesToAddress([]byte{0xde, 0xad, 0x02})
+		ben := []common.Address{self, other, dead, dead, ee, ee, common.BytesToAddress([]byte{4})}[r.Intn(7)]
+		w.pushAddr(ben).op(SELFDESTRUCT)
 		otherCode = w.bytes()
+		if r.Chance(1, 3) {
+			a.push(0).push(0).push(0).push(0).pushAddr(ben).op(GAS, STATICCALL, POP) // touch: the beneficiary now exists and is empty
+		}
 		for i := 0; i < 2; i++ {
 			a.push(0).push(0).push(0).push(0).push(uint64(r.Intn(3))).pushAddr(other).op(GAS, CALL)
 			a.push(uint64(i)).op(SSTORE)
@@ -1799,14 +1837,14 @@ func c10Boundary(r *c10Rand, c *c10Case, self, other common.Address) (code []byt
 	case 30: // EXTCODEHASH / EXTCODESIZE / BALANCE of absent, touched-but-empty, codeless, contract, precompile, self, destructed accounts
 		name = "extcodehash-edge"
 		dead := common.BytesToAddress([]byte{0xde, 0xad, 0x05})
-		tgt := []common.Address{dead, dead, c.origin, other, self, common.BytesToAddress([]byte{4}), common.BytesToAddress([]byte{byte(1 + r.Intn(8))}),
-			common.BytesToAddress([]byte{0xc0, 0xde, 0x00, 0x07})}[r.Intn(8)]
-		touch := r.Intn(6)
+		tgt := []common.Address{dead, dead, dead, common.BytesToAddress([]byte{4}), common.BytesToAddress([]byte{4}), c.origin, other, self,
+			common.BytesToAddress([]byte{byte(1 + r.Intn(8))}), common.BytesToAddress([]byte{0xc0, 0xde, 0x00, 0x07})}[r.Intn(10)]
+		touch := []int{0, 1, 1, 1, 2, 3, 4, 4, 5}[r.Intn(9)]
 		if c10IsUnmodelledPrecompile(tgt) && touch != 4 {
 			touch = 0 // never CALL a precompile that is outside the model; querying it is fine
 		}
 		w := newAsm() // other: self-destructs to the target or just stops
-		if r.Chance(1, 2) {
+		if r.Chance(3, 4) {
 			w.pushAddr(tgt).op(SELFDESTRUCT)
 		} else {
 			w.op(STOP)
@@ -1992,6 +2030,21 @@ func c10Boundary(r *c10Rand, c *c10Case, self, other common.Address) (code []byt
 		a.push(128).push(0).op(RETURN)
 	case 34: // identity precompile with exactly / one less / one more than the gas it needs
 		name = "identity-gas-exact"
+		if r.Chance(1, 4) {
+			// a value-bearing CALL whose precompile run fails for lack of gas: the transfer is undone. The stipend (2300)
+			// always comes on top of the requested gas, so the input has to cost more than that: > 766 words
+			words := 767 + r.Intn(40)
+			cost := 15 + 3*words
+			req := cost - 2300 + []int{-1, 0, 1}[r.Intn(3)]
+			a.push(0).push(0).push(uint64(32 * words)).push(0).push(uint64(1 + r.Intn(3))).push(4).push(uint64(req)).op(CALL)
+			a.push(0).op(SSTORE)
+			a.push(4).op(BALANCE).push(1).op(SSTORE)
+			a.op(SELFBALANCE).push(2).op(SSTORE)
+			a.op(RETURNDATASIZE).push(3).op(SSTORE)
+			a.op(STOP)
+			c.accts0bal = big.NewInt(int64(r.Intn(2) * 100)) // half of the time the caller cannot pay either
+			break
+		}
 		size := []int{0, 1, 31, 32, 33, 64, 65}[r.Intn(7)]
 		delta := []int{-1, 0, 0, 1}[r.Intn(4)]
 		cost := 15 + 3*((size+31)/32)
@@ -2059,7 +2112,7 @@ func c10Boundary(r *c10Rand, c *c10Case, self, other common.Address) (code []byt
 		a.pushAddr(addr).op(BALANCE).push(2).op(SSTORE)
 		a.push(0).push(0).push(0).push(0).push(0).pushAddr(addr).op(GAS, CALL).push(3).op(SSTORE)
 		a.op(STOP)
-	case 36, 37: // the depth limit for EVERY frame-creating operation: recursion to the limit, then one operation per frame on the way back
+	case 36: // the depth limit for EVERY frame-creating operation: recursion to the limit, then one operation per frame on the way back
 		name = "depth-boundary"
 		c.gas = 1000000000000000 + uint64(r.Intn(1000))
 		kind := []OpCode{CALL, DELEGATECALL, STATICCALL, CALLCODE}[r.Intn(4)]
@@ -2108,9 +2161,229 @@ func c10Boundary(r *c10Rand, c *c10Case, self, other common.Address) (code []byt
 		ret32()
 		c.specRet, c.specName = word32(1024), "kvm-depth-limit"
 		c.specWhat = "frames 1..1024 may start one more call/creation (" + xop + "), frame 1025 may not: the count returned through the " + kind.String() + " recursion must be 1024"
+	case 37: // a self-destruct inside a frame that later fails is undone (balance, code, destruct mark, beneficiary)
+		name = "selfdestruct-in-failed-frame"
+		c.gas = 3000000
+		bomb := common.BytesToAddress([]byte{0xc0, 0xde, 0x00, 0x09})
+		ben := []common.Address{common.BytesToAddress([]byte{0xde, 0xad, 0x0a}), self, other, bomb, c.origin}[r.Intn(5)]
+		bc := newAsm()
+		bc.push(7).push(0).op(SSTORE).pushAddr(ben).op(SELFDESTRUCT)
+		c.extra = append(c.extra, c10Acct{addr: bomb, nonce: 1, bal: big.NewInt(int64(r.Intn(2) * (1 + r.Intn(50)))), code: bc.bytes()})
+		w := newAsm()
+		w.push(0).push(0).push(0).push(0).push(0).pushAddr(bomb).push(200000).op(CALL).push(0).op(SSTORE)
+		if r.Chance(1, 3) { // a second call into the destructed contract within the same frame
+			w.push(0).push(0).push(0).push(0).push(0).pushAddr(bomb).push(200000).op(CALL).push(1).op(SSTORE)
+		}
+		switch r.Intn(5) {
+		case 0:
+			w.push(0).push(0).op(REVERT)
+		case 1:
+			w.raw(0xfe)
+		case 2:
+			w.push(99).op(JUMP)
+		default:
+			w.op(STOP)
+		}
+		otherCode = w.bytes()
+		a.push(0).push(0).push(0).push(0)
+		kind := []OpCode{CALL, CALL, DELEGATECALL, CALLCODE}[r.Intn(4)]
+		if kind == CALL || kind == CALLCODE {
+			a.push(0)
+		}
+		a.pushAddr(other).push(1000000).op(kind).push(0).op(SSTORE)
+		a.pushAddr(bomb).op(BALANCE).push(1).op(SSTORE)
+		a.pushAddr(bomb).op(EXTCODESIZE).push(2).op(SSTORE)
+		a.pushAddr(ben).op(BALANCE).push(3).op(SSTORE)
+		a.push(32).push(0).push(0).push(0).push(0).pushAddr(bomb).push(200000).op(CALL).push(4).op(SSTORE)
+		a.op(STOP)
+	case 39: // offsets of 2^64 and more whose LOW 64 bits are a perfectly valid offset: nothing may be read / reached there
+		name = "offset-high-bits"
+		hi := func(k uint64) *big.Int {
+			return new(big.Int).Add(new(big.Int).Lsh(big.NewInt(1), uint(64*(1+r.Intn(3)))), new(big.Int).SetUint64(k))
+		}
+		c.input = r.Bytes(64 + r.Intn(40))
+		for i := range c.input {
+			c.input[i] |= 1
+		}
+		c.specName = "kvm-offset-truncated"
+		switch r.Intn(4) {
+		case 0: // JUMP / JUMPI to 2^64k + (a valid JUMPDEST position)
+			x := newAsm()
+			x.op(JUMPDEST).push(1).push(0).op(MSTORE).push(32).push(0).op(RETURN)
+			if r.Chance(1, 2) {
+				a.pushBig(hi(0x22)).op(JUMP) // PUSH9.. is at most 34 bytes: pad to 0x22 below
+			} else {
+				a.push(1).pushBig(hi(0x24)).op(JUMPI)
+			}
+			for len(a.buf) < 0x22 {
+				a.op(STOP)
+			}
+			if a.buf[0] == byte(PUSH1) { // the JUMPI variant starts with PUSH1 1: its landing pad is 2 further
+				a.op(STOP, STOP)
+			}
+			a.raw(x.bytes()...)
+			c.specClass = "badjump"
+			c.specWhat = "a jump to 2^64k + p, p a JUMPDEST position, is invalid"
+		case 1: // RETURNDATACOPY: offset beyond 64 bits is out of bounds even for length 0
+			w := newAsm()
+			w.push(64).push(0).op(RETURN)
+			otherCode = w.bytes()
+			a.push(0).push(0).push(0).push(0).push(0).pushAddr(other).op(GAS, CALL, POP)
+			a.push(uint64(r.Intn(3) * 16)).pushBig(hi(uint64(r.Intn(32)))).push(0).op(RETURNDATACOPY)
+			a.push(32).push(0).op(RETURN)
+			c.specClass = "retoob"
+			c.specWhat = "RETURNDATACOPY from offset 2^64k + small is out of bounds"
+		default: // CALLDATALOAD / CALLDATACOPY / CODECOPY / EXTCODECOPY: only zeros can come from there
+			for i := 0; i < 8; i++ {
+				a.pushBig(c10Max).push(uint64(32 * i)).op(MSTORE)
+			}
+			for i := 0; i < 8; i++ {
+				k := uint64(r.Intn(24))
+				switch r.Intn(4) {
+				case 0:
+					a.pushBig(hi(k)).op(CALLDATALOAD).push(uint64(32 * i)).op(MSTORE)
+				case 1:
+					a.push(32).pushBig(hi(k)).push(uint64(32 * i)).op(CALLDATACOPY)
+				case 2:
+					a.push(32).pushBig(hi(k)).push(uint64(32 * i)).op(CODECOPY)
+				default:
+					a.push(32).pushBig(hi(k)).push(uint64(32 * i)).pushAddr([]common.Address{self, other}[r.Intn(2)]).op(EXTCODECOPY)
+				}
+			}
+			a.push(256).push(0).op(RETURN)
+			c.specRet = make([]byte, 256)
+			c.specWhat = "call data / code read at offsets 2^64k + small are zeros"
+			oc := newAsm()
+			oc.pushBig(c10Max).pushBig(c10Max).op(POP, POP, STOP)
+			otherCode = oc.bytes()
+		}
+	case 40: // the precompiled contracts 0x01..0x08 on empty, short, structured, oversized and random inputs (not modelled:
+		// no panic, no hang, same result twice, same result as go-ethereum's implementations)
+		name = "precompile-call"
+		c.gas = 30000000
+		p := []int{1, 2, 3, 5, 5, 5, 6, 7, 8}[r.Intn(9)]
+		var in []byte
+		w32 := func(v *big.Int) []byte { return common.BigToHash(new(big.Int).Mod(v, c10Two256)).Bytes() }
+		lenWord := func() []byte {
+			return w32([]*big.Int{big.NewInt(0), big.NewInt(1), big.NewInt(2), big.NewInt(31), big.NewInt(32), big.NewInt(33), big.NewInt(64), big.NewInt(int64(r.Intn(70))),
+				new(big.Int).SetUint64(1 << 32), new(big.Int).SetUint64(1<<64 - 1), new(big.Int).Lsh(big.NewInt(1), 64), c10Max}[r.Pick(4, 4, 3, 2, 4, 2, 2, 6, 1, 1, 1, 1)])
+		}
+		g1 := func() []byte { // a point of G1: infinity, the generator, garbage
+			switch r.Intn(4) {
+			case 0:
+				return make([]byte, 64)
+			case 1, 2:
+				return append(w32(big.NewInt(1)), w32(big.NewInt(2))...)
+			default:
+				return r.Bytes(64)
+			}
+		}
+		switch r.Pick(3, 2, 6) {
+		case 0:
+			in = nil
+		case 1:
+			in = r.Bytes(r.Intn(300))
+		default:
+			switch p {
+			case 1:
+				if r.Chance(1, 2) {
+					in = append(r.Bytes(32), w32(big.NewInt(int64(26+r.Intn(4))))...)
+					in = append(in, r.Bytes(64)...)
+					break
+				}
+				// a real signature by a fixed key over a random hash: as produced (s in the lower half of the group
+				// order), or its twin (r, N-s, v^1) which is just as valid for ECRECOVER (EIP-2's low-s rule is about
+				// transaction signatures only), or with a wrong recovery id / garbage in the v word
+				key, _ := crypto.HexToECDSA("b71c71a67e1177ad4e901695e1b4b9ee17ae16c6668d313eac2f96dbcda3f291")
+				hash := r.Bytes(32)
+				sig, err := crypto.Sign(hash, key)
+				if err != nil {
+					break
+				}
+				rr, ss, v := new(big.Int).SetBytes(sig[:32]), new(big.Int).SetBytes(sig[32:64]), sig[64]
+				variant := r.Pick(3, 4, 1, 1)
+				if variant == 1 {
+					ss.Sub(crypto.S256().Params().N, ss)
+					v ^= 1
+				}
+				vw := w32(big.NewInt(int64(27 + v)))
+				if variant == 3 {
+					vw[r.Intn(31)] = 1 // non-zero high bytes in the v word: no recovery
+				}
+				in = append(append(append(append([]byte{}, hash...), vw...), w32(rr)...), w32(ss)...)
+				if variant <= 1 {
+					exp := make([]byte, 160)
+					copy(exp[12:32], crypto.PubkeyToAddress(key.PublicKey).Bytes())
+					exp[95], exp[127] = 1, 32
+					c.specRet, c.specName = exp, "kvm-ecrecover"
+					c.specWhat = "ECRECOVER (precompile 0x01) of a valid signature must return the signer's address"
+					if variant == 1 {
+						c.specName = "kvm-ecrecover-rejects-high-s"
+						c.specWhat = "ECRECOVER (precompile 0x01) of the high-s twin (r, N-s, v^1) of a valid signature must return the signer's address, as the reference EVM does (the low-s rule of EIP-2 applies to transaction signatures only)"
+					}
+				} else if variant == 3 {
+					exp := make([]byte, 160)
+					exp[95] = 1
+					c.specRet, c.specName = exp, "kvm-ecrecover"
+					c.specWhat = "ECRECOVER with a v word that has non-zero high bytes must return nothing"
+				}
+			case 5:
+				in = append(append(lenWord(), lenWord()...), lenWord()...)
+				switch r.Intn(3) {
+				case 0:
+					in = append(in, r.Bytes(r.Intn(140))...)
+				case 1: // base and exponent present, modulus missing or zero
+					in = append(in, r.Bytes(1+r.Intn(40))...)
+					in = append(in, make([]byte, r.Intn(40))...)
+				default:
+					in = append(in, make([]byte, r.Intn(100))...)
+				}
+			case 6:
+				in = append(g1(), g1()...)
+			case 7:
+				in = append(g1(), w32(c10Word(r))...)
+			case 8:
+				for i, n := 0, r.Intn(3); i < n; i++ {
+					in = append(in, g1()...)
+					if r.Chance(1, 2) {
+						in = append(in, make([]byte, 128)...)
+					} else {
+						in = append(in, r.Bytes(128)...)
+					}
+				}
+			default:
+				in = r.Bytes([]int{1, 31, 32, 33, 55, 56, 63, 64, 65, 119, 120, 128}[r.Intn(12)])
+			}
+			if r.Chance(1, 5) && len(in) > 0 && c.specRet == nil {
+				in = in[:r.Intn(len(in))]
+			}
+		}
+		if p == 1 && len(in) >= 97 {
+			sb := make([]byte, 32)
+			copy(sb, in[96:])
+			halfN := new(big.Int).Rsh(crypto.S256().Params().N, 1)
+			c.ecHighS = new(big.Int).SetBytes(sb).Cmp(halfN) > 0
+		}
+		c10StoreBytes(a, in)
+		base := uint64((len(in) + 31) / 32 * 32)
+		a.push(64).push(base).push(uint64(len(in))).push(0)
+		kind := []OpCode{CALL, STATICCALL, DELEGATECALL, CALLCODE}[r.Intn(4)]
+		if kind == CALL || kind == CALLCODE {
+			a.push(0)
+		}
+		a.push(uint64(p)).op(GAS).op(kind)
+		a.push(base + 64).op(MSTORE)
+		a.op(RETURNDATASIZE).push(base + 96).op(MSTORE)
+		a.push(160).push(base).op(RETURN)
 	default: // value transfer to non-existent / existing / self
 		name = "value-transfer"
-		tgt := []common.Address{other, self, common.BytesToAddress([]byte{0xde, 0xad, 0x00}), common.BytesToAddress([]byte{0xaa, 0xaa, 0x01})}[r.Intn(4)]
+		ee := common.BytesToAddress([]byte{0xc0, 0xde, 0x00, 0x0e}) // exists in the pre-state and is empty
+		c.extra = append(c.extra, c10Acct{addr: ee, bal: big.NewInt(0)})
+		dead := common.BytesToAddress([]byte{0xde, 0xad, 0x00})
+		tgt := []common.Address{other, self, dead, dead, ee, ee, common.BytesToAddress([]byte{4}), common.BytesToAddress([]byte{0xaa, 0xaa, 0x01})}[r.Intn(8)]
+		if r.Chance(1, 3) {
+			a.push(0).push(0).push(0).push(0).pushAddr(tgt).op(GAS, STATICCALL, POP) // touch: an absent target now exists and is empty
+		}
 		a.push(0).push(0).push(0).push(0).push(uint64(r.Intn(30))).pushAddr(tgt).push(uint64(r.Intn(3) * 20000)).op([]OpCode{CALL, CALLCODE}[r.Intn(2)])
 		a.push(0).op(SSTORE)
 		a.pushAddr(tgt).op(BALANCE).push(1).op(SSTORE)
@@ -2151,7 +2424,7 @@ func c10GenCase(r *c10Rand, o *c10Out) *c10Case {
 		addrs[i] = c10Addr(i)
 	}
 	codes := make([][]byte, nC)
-	kind := r.Pick(12, 18, 42, 25, 4)
+	kind := r.Pick(12, 17, 36, 31, 4)
 	switch kind {
 	case 0:
 		c.kind = "random-bytes"
@@ -2218,6 +2491,9 @@ func c10GenCase(r *c10Rand, o *c10Out) *c10Case {
 		c.accts = append(c.accts, a)
 	}
 	c.accts = append(c.accts, c.extra...)
+	if c.accts0bal != nil {
+		c.accts[0].bal = c.accts0bal
+	}
 	c.accts = append(c.accts, c10Acct{addr: c.origin, nonce: uint64(r.Intn(3)), bal: originBal})
 	if c.exactOn {
 		c.exactOn = false
@@ -2303,9 +2579,10 @@ func TestVerifC10(t *testing.T) {
 	o := c10Open()
 	defer o.Close()
 	o.Rule = "per case: small pre-state (1-4 contracts + origin), one top-level Call/Create on KVM with generous gas under the pre- or post-Galaxias table; " +
-		"code = uniformly random bytes | opcode-weighted | grammar-generated (expressions, if/loops with valid jumps, nested CALL/CALLCODE/DELEGATECALL/STATICCALL, CREATE/CREATE2, logs, revert/selfdestruct) | boundary families; " +
+		"grammar = expressions, if/loops with valid jumps, nested CALL/CALLCODE/DELEGATECALL/STATICCALL, CREATE/CREATE2, logs, revert/selfdestruct; " +
 		"observables: error class, gas left, return data, non-empty accounts (nonce, balance, code, non-zero storage) and logs; " +
-		"oracles: no panic, < 2 s of CPU per program, same result with and without tracer, agreement with go-ethereum v1.9.15 core/vm (Istanbul) on class/return data/state/logs whenever no frame ran out of gas and no fork-specific opcode (GAS value, DIFFICULTY, CHAINID pre-Galaxias, precompiles' gas) was observed"
+		"code = uniformly random bytes | opcode-weighted | grammar-generated | programs free of GAS/CALL/CREATE run with exactly the gas they need +-1 | 40 boundary families (stack 1023/1024, depth limit for every frame-creating operation, jump-destination bitmap per PUSH width/alignment and per code, offsets at 2^32/2^63/2^64 and 2^64k+valid, RETURNDATA after every operation that replaces it, identity precompile gas and copy semantics, address collisions, BLOCKHASH window, EXTCODEHASH of absent/empty/destructed accounts, self-destruct inside failed frames, precompiles 0x01-0x08, ...); " +
+		"oracles: no panic, < 2 s of CPU per program, same result with and without tracer, per-family expected result (depth count 1024, identity gas/copy, zeros beyond 2^64, exact gas), agreement with go-ethereum v1.9.15 core/vm (Istanbul) on class/return data/state/logs whenever no frame ran out of gas and no fork-specific opcode (GAS value, DIFFICULTY, CHAINID pre-Galaxias, precompiles' gas) was observed"
 	root := c10NewRand(*c10Seed)
 	opsCovered := map[byte]int{}
 	// per-case family and outcome, for reading a run by hand (not compared with anything)
@@ -2345,6 +2622,9 @@ func TestVerifC10(t *testing.T) {
 		}
 		if c.specRet != nil && c.specName != "" && res.panic == "" && res.class == "ok" && !bytes.Equal(res.ret, c.specRet) {
 			o.Fail(0, c.specName, fmt.Sprintf("kind=%s %s: got %x, expected %x", c.kind, c.specWhat, res.ret, c.specRet))
+		}
+		if c.specClass != "" && res.panic == "" && !res.timeout && res.class != c.specClass {
+			o.Fail(0, c.specName, fmt.Sprintf("kind=%s %s: must end with %s, got class=%s ret=%x", c.kind, c.specWhat, c.specClass, res.class, res.ret))
 		}
 		if c.exactOn && res.panic == "" && !res.timeout {
 			o.Count(fmt.Sprintf("exact-gas:delta%+d", func() int64 {
@@ -2413,7 +2693,9 @@ func TestVerifC10(t *testing.T) {
 				ka := append([]string{"R " + c10Coarse(res.class) + " " + c10Hex(res.ret)}, append(append([]string{}, res.accts...), res.logs...)...)
 				ga := append([]string{"R " + c10Coarse(gres.class) + " " + c10Hex(gres.ret)}, append(append([]string{}, gres.accts...), gres.logs...)...)
 				ks, gs := strings.Join(ka, " | "), strings.Join(ga, " | ")
-				if ks != gs {
+				if ks != gs && c.ecHighS {
+					o.Fail(0, "kvm-ecrecover-rejects-high-s", fmt.Sprintf("kind=%s ECRECOVER input with s in the upper half of the group order: kvm=[%s] geth=[%s]", c.kind, c10Trunc(ks), c10Trunc(gs)))
+				} else if ks != gs {
 					o.Fail(0, "kvm-differs-from-reference-evm", fmt.Sprintf("kind=%s kvm=[%s] geth=[%s] kvmclass=%s gethclass=%s", c.kind, c10Trunc(ks), c10Trunc(gs), res.class, gres.class))
 				}
 			}
